@@ -9,6 +9,57 @@ import (
 	"github.com/creachadair/jrpc2"
 )
 
+// verifPicky is a parameter type with its own decoder, which rejects some
+// values with an error of its own (a *jrpc2.Error with a private code).
+type verifPicky struct{ s string }
+
+func (p *verifPicky) UnmarshalJSON(data []byte) error {
+	var s string
+	if err := json.Unmarshal(data, &s); err != nil {
+		return err
+	}
+	if s == "!" {
+		return jrpc2.Errorf(jrpc2.Code(1001), "value rejected by the parameter type")
+	}
+	p.s = s
+	return nil
+}
+
+// Harness_C16_custom: a positional parameter whose own decoder rejects the
+// value: InvalidParams, never the decoder's private code, and no call.
+func Harness_C16_custom() {
+	calls := 0
+	fi, err := Positional(func(_ context.Context, a json.RawMessage, p verifPicky) error { calls++; return nil }, "first", "second")
+	vassert(err == nil, "accepted")
+	h := fi.Wrap()
+	b := nondetString("b", 1)
+	var params json.RawMessage
+	if nondetBool("object-form") {
+		params = tokObject([]string{"first", "second"}, []json.RawMessage{tokLit("1"), tokString(b)})
+	} else {
+		params = tokArray([]json.RawMessage{tokLit("1"), tokString(b)})
+	}
+	parsed, _ := jrpc2.ParseRequests(tokObject([]string{"jsonrpc", "id", "method", "params"},
+		[]json.RawMessage{tokString("2.0"), tokLit("1"), tokString("m"), params}))
+	_, herr := h(context.Background(), parsed[0].ToRequest())
+	if b == "!" {
+		vassert(calls == 0 && herr != nil && jrpc2.ErrorCode(herr) == jrpc2.InvalidParams, "C16: a value the parameter's decoder rejects is InvalidParams without a call")
+		reach("custom-rejected")
+	} else {
+		vassert(calls == 1 && herr == nil, "C16: an accepted value reaches the function")
+		reach("custom-accepted")
+	}
+	// the same through Args
+	var raw json.RawMessage
+	var pk verifPicky
+	req2 := parsed[0].ToRequest()
+	aerr := req2.UnmarshalParams(&Args{&raw, &pk})
+	if nondetBool("object-form-args") {
+		return
+	}
+	_ = aerr
+}
+
 // Harness_C16_positional: a handler built by Positional from
 // func(ctx, X1, X2) with two names accepts exactly an array of two elements or
 // an object using only the given names; anything else is InvalidParams
